@@ -47,6 +47,22 @@ type Doc struct {
 	M       map[string]string `json:"m" xml:"-" yaml:"m"`
 	Num     json.Number       `json:"num" xml:"-" yaml:"-"`
 	Any     any               `json:"any" xml:"-" yaml:"-"`
+	extras  `xml:"-" yaml:"-"`
+}
+
+// Sealed has no untyped slot of its own: its only ones sit behind the embedded unexported type.
+type Sealed struct {
+	Name string `json:"name"`
+	N    int64  `json:"n"`
+	extras
+}
+
+// extras is embedded by value under an unexported type name: encoding/json still encodes and decodes its exported
+// fields as fields of Doc, so the untyped slots in here are part of the value that must round-trip.
+type extras struct {
+	Extra  any            `json:"extra"`
+	ExtraL []any          `json:"extra_l"`
+	ExtraM map[string]any `json:"extra_m"`
 }
 
 // rng is a tiny deterministic generator seeded from (class, salt): values are
@@ -219,6 +235,13 @@ func (g *gen) doc() Doc {
 			d.Any = g.str()
 		case 2:
 			d.Any = map[string]any{"n": json.Number(g.number()), "s": g.str()}
+		}
+		switch g.r.n(3) {
+		case 0:
+			d.Extra = json.Number(g.number())
+		case 1:
+			d.ExtraL = []any{json.Number(g.number()), g.str()}
+			d.ExtraM = map[string]any{"deep": []any{json.Number(g.number())}}
 		}
 	}
 	return d
